@@ -135,3 +135,89 @@ Definition hand_C22 (dt lat lon alt VN VE VD C00 C01 C02 C10 C11 C12 C20 C21 C22
   h_att mat_from_rotvec_m20 mat_from_rotvec_m21 mat_from_rotvec_m22 mat_from_rotvec_m02 mat_from_rotvec_m12 mat_from_rotvec_m22
         (hand_xi1 dt lat lon alt VN VE VD C00 C01 C02 C10 C11 C12 C20 C21 C22 th0 th1 th2 dv0 dv1 dv2) (hand_xi2 dt lat lon alt VN VE VD C00 C01 C02 C10 C11 C12 C20 C21 C22 th0 th1 th2 dv0 dv1 dv2) (hand_xi3 dt lat lon alt VN VE VD C00 C01 C02 C10 C11 C12 C20 C21 C22 th0 th1 th2 dv0 dv1 dv2)
         C00 C01 C02 C10 C11 C12 C20 C21 C22 th0 th1 th2.
+
+(** ** The GENERATED step as a map on 15-tuples, and the run over a sequence of increments
+    (used only to state the end-to-end convergence theorem of C01) *)
+Record kstate : Type := mk_kstate {
+  k_lat : R; k_lon : R; k_alt : R; k_VN : R; k_VE : R; k_VD : R;
+  k_C00 : R; k_C01 : R; k_C02 : R; k_C10 : R; k_C11 : R; k_C12 : R; k_C20 : R; k_C21 : R; k_C22 : R }.
+Record kinc : Type := mk_kinc { i_th0 : R; i_th1 : R; i_th2 : R; i_dv0 : R; i_dv1 : R; i_dv2 : R }.
+
+Definition kapp (f : R -> R -> R -> R -> R -> R -> R -> R -> R -> R -> R -> R -> R -> R -> R -> R ->
+                     R -> R -> R -> R -> R -> R -> R) (dt : R) (s : kstate) (u : kinc) : R :=
+  f dt (k_lat s) (k_lon s) (k_alt s) (k_VN s) (k_VE s) (k_VD s)
+       (k_C00 s) (k_C01 s) (k_C02 s) (k_C10 s) (k_C11 s) (k_C12 s) (k_C20 s) (k_C21 s) (k_C22 s)
+       (i_th0 u) (i_th1 u) (i_th2 u) (i_dv0 u) (i_dv1 u) (i_dv2 u).
+
+(** one iteration of the kernel loop (generated definitions) *)
+Definition kstep (dt : R) (s : kstate) (u : kinc) : kstate :=
+  mk_kstate (kapp step3d_lat dt s u) (kapp step3d_lon dt s u) (kapp step3d_alt dt s u)
+            (kapp step3d_VN dt s u) (kapp step3d_VE dt s u) (kapp step3d_VD dt s u)
+            (kapp step3d_C00 dt s u) (kapp step3d_C01 dt s u) (kapp step3d_C02 dt s u)
+            (kapp step3d_C10 dt s u) (kapp step3d_C11 dt s u) (kapp step3d_C12 dt s u)
+            (kapp step3d_C20 dt s u) (kapp step3d_C21 dt s u) (kapp step3d_C22 dt s u).
+
+(** the loop: n iterations with constant interval h and increments inc 0, inc 1, ... *)
+Fixpoint krun (h : R) (inc : nat -> kinc) (s0 : kstate) (n : nat) : kstate :=
+  match n with
+  | O => s0
+  | S m => kstep h (krun h inc s0 m) (inc m)
+  end.
+
+(** l1 distance on the 15 components *)
+Definition kdist (a b : kstate) : R :=
+  Rabs (k_lat a - k_lat b) + Rabs (k_lon a - k_lon b) + Rabs (k_alt a - k_alt b)
+  + Rabs (k_VN a - k_VN b) + Rabs (k_VE a - k_VE b) + Rabs (k_VD a - k_VD b)
+  + Rabs (k_C00 a - k_C00 b) + Rabs (k_C01 a - k_C01 b) + Rabs (k_C02 a - k_C02 b)
+  + Rabs (k_C10 a - k_C10 b) + Rabs (k_C11 a - k_C11 b) + Rabs (k_C12 a - k_C12 b)
+  + Rabs (k_C20 a - k_C20 b) + Rabs (k_C21 a - k_C21 b) + Rabs (k_C22 a - k_C22 b).
+
+(** ** Per-row formulas of strapdown.compute_increments_from_imu, rate-type sensor,
+    hand transcription for one interval: a = sample at the start, e = sample at the end *)
+Definition h_cross0 (a0 a1 a2 b0 b1 b2 : R) : R := a1 * b2 - a2 * b1.
+Definition h_cross1 (a0 a1 a2 b0 b1 b2 : R) : R := a2 * b0 - a0 * b2.
+Definition h_cross2 (a0 a1 a2 b0 b1 b2 : R) : R := a0 * b1 - a1 * b0.
+(* gyro_increment / accel_increment component:  (a + 0.5 b) dt  with b = e - a *)
+Definition h_rate_inc (dt a e : R) : R := (a + 1 / 2 * (e - a)) * dt.
+(* theta = gyro_increment + cross(a_gyro, b_gyro) dt^2 / 12 *)
+Definition h_rate_theta0 (dt a0 a1 a2 e0 e1 e2 : R) : R :=
+  h_rate_inc dt a0 e0 + h_cross0 a0 a1 a2 (e0 - a0) (e1 - a1) (e2 - a2) * (dt * dt) / 12.
+Definition h_rate_theta1 (dt a0 a1 a2 e0 e1 e2 : R) : R :=
+  h_rate_inc dt a1 e1 + h_cross1 a0 a1 a2 (e0 - a0) (e1 - a1) (e2 - a2) * (dt * dt) / 12.
+Definition h_rate_theta2 (dt a0 a1 a2 e0 e1 e2 : R) : R :=
+  h_rate_inc dt a2 e2 + h_cross2 a0 a1 a2 (e0 - a0) (e1 - a1) (e2 - a2) * (dt * dt) / 12.
+(* dv = accel_increment + (cross(a_gyro, b_accel) + cross(a_accel, b_gyro)) dt^2 / 12
+        + 0.5 cross(gyro_increment, accel_increment);  g = gyro samples, f = accel samples *)
+Definition h_rate_dv0 (dt ga0 ga1 ga2 ge0 ge1 ge2 fa0 fa1 fa2 fe0 fe1 fe2 : R) : R :=
+  h_rate_inc dt fa0 fe0
+  + (h_cross0 ga0 ga1 ga2 (fe0 - fa0) (fe1 - fa1) (fe2 - fa2)
+     + h_cross0 fa0 fa1 fa2 (ge0 - ga0) (ge1 - ga1) (ge2 - ga2)) * (dt * dt) / 12
+  + 1 / 2 * h_cross0 (h_rate_inc dt ga0 ge0) (h_rate_inc dt ga1 ge1) (h_rate_inc dt ga2 ge2)
+                     (h_rate_inc dt fa0 fe0) (h_rate_inc dt fa1 fe1) (h_rate_inc dt fa2 fe2).
+Definition h_rate_dv1 (dt ga0 ga1 ga2 ge0 ge1 ge2 fa0 fa1 fa2 fe0 fe1 fe2 : R) : R :=
+  h_rate_inc dt fa1 fe1
+  + (h_cross1 ga0 ga1 ga2 (fe0 - fa0) (fe1 - fa1) (fe2 - fa2)
+     + h_cross1 fa0 fa1 fa2 (ge0 - ga0) (ge1 - ga1) (ge2 - ga2)) * (dt * dt) / 12
+  + 1 / 2 * h_cross1 (h_rate_inc dt ga0 ge0) (h_rate_inc dt ga1 ge1) (h_rate_inc dt ga2 ge2)
+                     (h_rate_inc dt fa0 fe0) (h_rate_inc dt fa1 fe1) (h_rate_inc dt fa2 fe2).
+Definition h_rate_dv2 (dt ga0 ga1 ga2 ge0 ge1 ge2 fa0 fa1 fa2 fe0 fe1 fe2 : R) : R :=
+  h_rate_inc dt fa2 fe2
+  + (h_cross2 ga0 ga1 ga2 (fe0 - fa0) (fe1 - fa1) (fe2 - fa2)
+     + h_cross2 fa0 fa1 fa2 (ge0 - ga0) (ge1 - ga1) (ge2 - ga2)) * (dt * dt) / 12
+  + 1 / 2 * h_cross2 (h_rate_inc dt ga0 ge0) (h_rate_inc dt ga1 ge1) (h_rate_inc dt ga2 ge2)
+                     (h_rate_inc dt fa0 fe0) (h_rate_inc dt fa1 fe1) (h_rate_inc dt fa2 fe2).
+
+(** increment-type sensor: p = sample of the previous interval, c = sample of the current one
+    (both are integrals of the signal over their interval) *)
+Definition h_incr_theta0 (gp0 gp1 gp2 gc0 gc1 gc2 : R) : R := gc0 + h_cross0 gp0 gp1 gp2 gc0 gc1 gc2 / 12.
+Definition h_incr_theta1 (gp0 gp1 gp2 gc0 gc1 gc2 : R) : R := gc1 + h_cross1 gp0 gp1 gp2 gc0 gc1 gc2 / 12.
+Definition h_incr_theta2 (gp0 gp1 gp2 gc0 gc1 gc2 : R) : R := gc2 + h_cross2 gp0 gp1 gp2 gc0 gc1 gc2 / 12.
+Definition h_incr_dv0 (gp0 gp1 gp2 gc0 gc1 gc2 fp0 fp1 fp2 fc0 fc1 fc2 : R) : R :=
+  fc0 + (h_cross0 gp0 gp1 gp2 fc0 fc1 fc2 + h_cross0 fp0 fp1 fp2 gc0 gc1 gc2) / 12
+  + 1 / 2 * h_cross0 gc0 gc1 gc2 fc0 fc1 fc2.
+Definition h_incr_dv1 (gp0 gp1 gp2 gc0 gc1 gc2 fp0 fp1 fp2 fc0 fc1 fc2 : R) : R :=
+  fc1 + (h_cross1 gp0 gp1 gp2 fc0 fc1 fc2 + h_cross1 fp0 fp1 fp2 gc0 gc1 gc2) / 12
+  + 1 / 2 * h_cross1 gc0 gc1 gc2 fc0 fc1 fc2.
+Definition h_incr_dv2 (gp0 gp1 gp2 gc0 gc1 gc2 fp0 fp1 fp2 fc0 fc1 fc2 : R) : R :=
+  fc2 + (h_cross2 gp0 gp1 gp2 fc0 fc1 fc2 + h_cross2 fp0 fp1 fp2 gc0 gc1 gc2) / 12
+  + 1 / 2 * h_cross2 gc0 gc1 gc2 fc0 fc1 fc2.
